@@ -168,3 +168,205 @@ Definition sliding_coded (w : nat) (s : series) : inst :=
 Definition sliding_apply (w : nat) (p : panel) : res panel :=
   if negb (univariate p) || negb (equal_length p) || (w =? 0)%nat then Err
   else Ok (map (fun i => sliding_coded w (only_col i)) p).
+
+(* ------------------------------------------------------------------------------------------ *)
+(* RandomIntervalFeatureExtractor GIVEN the fitted intervals: for func in features:
+   for (start, end) in intervals_: func(X[:, :, start:end]).  Features: np.mean, np.std
+   (population; a square root: the model carries the variance and the case check verifies the
+   implementation's value is its non-negative root), utils.slope_and_trend._slope.            *)
+
+Definition map2 {A B C} (f : A -> B -> C) (l1 : list A) (l2 : list B) : list C :=
+  map (fun p => f (fst p) (snd p)) (combine l1 l2).
+
+Inductive feat := FMean | FStd | FSlope.
+Definition variance (l : series) : Q :=
+  let mu := qmean l in qmean (map (fun x => (x - mu) * (x - mu)) l).
+Definition time_axis (n : nat) : series := map (fun i => Qn (S i)) (seq 0 n).   (* 1..n *)
+(* _slope as coded: (mean(y*x) - mean(x) mean(y)) / (mean(x*x) - mean(x)^2), x = 1..n *)
+Definition slope_coded (y : series) : Q :=
+  let x := time_axis (length y) in
+  let xm := qmean x in
+  (qmean (map2 Qmult y x) - xm * qmean y) / (qmean (map2 Qmult x x) - xm * xm).
+(* value, and whether the implementation's number is the square ROOT of it *)
+Definition feat_apply (f : feat) (s : series) : Q * bool :=
+  match f with
+  | FMean => (qmean s, false)
+  | FStd => (variance s, true)
+  | FSlope => (slope_coded s, false)
+  end.
+Definition rife_row (feats : list feat) (ivs : list (nat * nat)) (s : series) : list (Q * bool) :=
+  concat (map (fun f => map (fun iv => feat_apply f (slice (fst iv) (snd iv) s)) ivs) feats).
+Definition rife_apply (feats : list feat) (ivs : list (nat * nat)) (p : panel)
+  : res (list (list (Q * bool))) :=
+  if negb (univariate p) || negb (equal_length p) then Err
+  else Ok (map (fun i => rife_row feats ivs (only_col i)) p).
+
+(* ------------------------------------------------------------------------------------------ *)
+(* Row transformers: the wrapped series transformer applied to every cell.                    *)
+
+Fixpoint cumsum_from (acc : Q) (s : series) : series :=
+  match s with [] => [] | x :: t => (acc + x) :: cumsum_from (acc + x) t end.
+Inductive sfun := SAffine (a b : Q) | SCumsum | SReverse.
+Definition sfun_apply (f : sfun) (s : series) : series :=
+  match f with
+  | SAffine a b => map (fun x => a * x + b) s
+  | SCumsum => cumsum_from 0 s
+  | SReverse => rev s
+  end.
+Inductive pfun := PMean | PWeighted.
+Definition pfun_apply (g : pfun) (s : series) : Q :=
+  match g with
+  | PMean => qmean s
+  | PWeighted => qsum (map2 Qmult s (time_axis (length s)))
+  end.
+Definition row_s2s (f : sfun) (p : panel) : res panel :=
+  if equal_length p then Ok (map_cells (sfun_apply f) p) else Err.
+(* series-to-primitives: one row per instance, one value per column *)
+Definition row_s2p (g : pfun) (p : panel) : res (list series) :=
+  if equal_length p then Ok (map (map (pfun_apply g)) p) else Err.
+
+(* ------------------------------------------------------------------------------------------ *)
+(* Imputer on a single series with missing values (None).                                     *)
+
+Definition oq := option Q.
+Definition oseries := list oq.
+Fixpoint ffill_from (prev : oq) (l : oseries) : oseries :=
+  match l with
+  | [] => []
+  | Some x :: t => Some x :: ffill_from (Some x) t
+  | None :: t => prev :: ffill_from prev t
+  end.
+Definition ffill (l : oseries) : oseries := ffill_from None l.
+Definition bfill (l : oseries) : oseries := rev (ffill (rev l)).
+Definition observed (l : oseries) : series :=
+  flat_map (fun o => match o with Some x => [x] | None => [] end) l.
+Definition fill_with (v : oq) (l : oseries) : oseries :=
+  map (fun o => match o with None => v | Some x => Some x end) l.
+
+Fixpoint insert_sorted (x : Q) (l : series) : series :=
+  match l with
+  | [] => [x]
+  | y :: t => if Qle_bool x y then x :: l else y :: insert_sorted x t
+  end.
+Definition sort_q (l : series) : series := fold_right insert_sorted [] l.
+Definition median (l : series) : Q :=
+  let s := sort_q l in let n := length s in
+  if Nat.even n then (qnth s (n / 2 - 1) + qnth s (n / 2)) / 2 else qnth s (n / 2).
+
+(* nearest observed neighbours of position t: (index, value) *)
+Fixpoint prev_obs (l : oseries) (t : nat) : option (nat * Q) :=
+  match t with
+  | O => None
+  | S t' => match nth t' l None with Some v => Some (t', v) | None => prev_obs l t' end
+  end.
+Fixpoint next_obs_fuel (fuel : nat) (l : oseries) (t : nat) : option (nat * Q) :=
+  match fuel with
+  | O => None
+  | S f => match nth t l None with Some v => Some (t, v) | None => next_obs_fuel f l (S t) end
+  end.
+Definition next_obs (l : oseries) (t : nat) : option (nat * Q) :=
+  next_obs_fuel (length l - S t) l (S t).
+
+(* pd.Series.interpolate(method="linear"): interior gaps on the straight line between the
+   neighbours (equally spaced positions), trailing gaps repeat the last observation, leading
+   gaps stay missing *)
+Definition lin_at (l : oseries) (t : nat) : oq :=
+  match nth t l None with
+  | Some v => Some v
+  | None =>
+    match prev_obs l t, next_obs l t with
+    | Some (tp, vp), Some (tn, vn) =>
+        Some (vp + (Qn t - Qn tp) / (Qn tn - Qn tp) * (vn - vp))
+    | Some (_, vp), None => Some vp
+    | None, _ => None
+    end
+  end.
+(* interpolate(method="nearest") (scipy interp1d kind="nearest"): interior gaps take the nearer
+   neighbour, the EARLIER one on a tie; leading / trailing gaps stay missing *)
+Definition near_at (l : oseries) (t : nat) : oq :=
+  match nth t l None with
+  | Some v => Some v
+  | None =>
+    match prev_obs l t, next_obs l t with
+    | Some (tp, vp), Some (tn, vn) => if (t - tp <=? tn - t)%nat then Some vp else Some vn
+    | _, _ => None
+    end
+  end.
+Definition positions {A} (l : list A) : list nat := seq 0 (length l).
+
+(* least-squares line through (t, y_t), t = 0..n-1: (intercept, slope) *)
+Definition ols_line (y : series) : Q * Q :=
+  let n := length y in
+  let x := map Qn (seq 0 n) in
+  let xm := qmean x in let ym := qmean y in
+  let sxx := qsum (map (fun a => (a - xm) * (a - xm)) x) in
+  let sxy := qsum (map2 (fun a b => (a - xm) * (b - ym)) x y) in
+  let b := if Qeq_bool sxx 0 then 0 else sxy / sxx in
+  (ym - b * xm, b).
+
+Inductive imethod :=
+  | IMean | IMedian | IConstant (v : Q) | IFfill | IBfill | INearest | ILinear | IDrift.
+
+Definition final_fill (l : oseries) : oseries := bfill (ffill l).
+Definition impute_core (m : imethod) (l : oseries) : oseries :=
+  match m with
+  | IMean => fill_with (match observed l with [] => None | o => Some (qmean o) end) l
+  | IMedian => fill_with (match observed l with [] => None | o => Some (median o) end) l
+  | IConstant v => fill_with (Some v) l
+  | IFfill => ffill l
+  | IBfill => bfill l
+  | INearest => map (near_at l) (positions l)
+  | ILinear => map (lin_at l) (positions l)
+  | IDrift =>
+      (* documented rule: trend fitted on the ffill/bfill-ed series fills the gaps *)
+      match observed l with
+      | [] => l
+      | _ => let '(a, b) := ols_line (observed (final_fill l)) in
+             map (fun t => match nth t l None with
+                           | Some v => Some v
+                           | None => Some (a + b * Qn t)
+                           end) (positions l)
+      end
+  end.
+Definition impute (m : imethod) (l : oseries) : oseries := final_fill (impute_core m l).
+(* the unchanged code for "drift": ffill/bfill happens BEFORE the fit, nothing is left to fill *)
+Definition impute_drift_faithful (l : oseries) : oseries := final_fill l.
+
+(* ------------------------------------------------------------------------------------------ *)
+(* CosineTransformer: cos is not rational; degree-2N Taylor polynomial, exact in Q.           *)
+
+Fixpoint cos_terms (fuel : nat) (k : Z) (term x2 acc : Q) : Q :=
+  match fuel with
+  | O => acc
+  | S f => let term' := Qred (- term * x2 / inject_Z ((2 * k + 1) * (2 * k + 2))) in
+           cos_terms f (k + 1)%Z term' x2 (Qred (acc + term'))
+  end.
+Definition cos_taylor (x : Q) : Q := cos_terms 40 0%Z 1 (x * x) 1.
+
+(* ------------------------------------------------------------------------------------------ *)
+(* AutoCorrelationTransformer (statsmodels acf): r_k = c_k / c_0,
+   c_k = sum_t (z_t - mean)(z_{t+k} - mean) / (n - k if adjusted else n), k = 0..nlags (< n)  *)
+
+Definition acov (adjusted : bool) (z : series) (k : nat) : Q :=
+  let n := length z in
+  let mu := qmean z in
+  let d := map (fun x => x - mu) z in
+  qsum (map2 Qmult (firstn (n - k) d) (skipn k d)) / (if adjusted then Qn (n - k) else Qn n).
+Definition acf (adjusted : bool) (nlags : option nat) (z : series) : res series :=
+  let n := length z in
+  let lags := match nlags with Some k => Nat.min (S k) n | None => n end in
+  if Qeq_bool (acov adjusted z 0) 0 then Err
+  else Ok (map (fun k => acov adjusted z k / acov adjusted z 0) (seq 0 lags)).
+
+(* ------------------------------------------------------------------------------------------ *)
+(* TabularToSeriesAdaptor(MinMaxScaler()): column-wise (x - min) / (max - min) with min / max
+   of the FITTED column (range 0 -> scale 1)                                                  *)
+
+Definition qmin_list (l : series) : Q := fold_right qmin (hd 0 l) l.
+Definition qmax_list (l : series) : Q := fold_right qmax (hd 0 l) l.
+Definition minmax_col (cfit c : series) : series :=
+  let mn := qmin_list cfit in let mx := qmax_list cfit in
+  let range := if Qeq_bool (mx - mn) 0 then 1 else mx - mn in
+  map (fun x => (x - mn) / range) c.
+Definition adapt_minmax (fit cols : inst) : res inst :=
+  if (length fit =? length cols)%nat then Ok (map2 minmax_col fit cols) else Err.
